@@ -1,0 +1,26 @@
+//go:build verif
+
+package radius
+
+import "sync/atomic"
+
+// Verification hooks (build tag "verif" only). A hook is called at a few named
+// synchronisation points of the packet server so that a test harness can park a
+// goroutine there and explore interleavings deterministically.
+
+var verifHook atomic.Value // of func(point string)
+
+// VerifSetHook installs f as the hook called at every verification point; nil
+// removes it.
+func VerifSetHook(f func(point string)) {
+	if f == nil {
+		f = func(string) {}
+	}
+	verifHook.Store(f)
+}
+
+func verifPoint(point string) {
+	if f, ok := verifHook.Load().(func(string)); ok {
+		f(point)
+	}
+}
